@@ -1393,6 +1393,40 @@ def check_chi2(ctx):
                            f'bins where both errors are ZERO are to be left '
                            f'out (spectra of small magnitude lose bins)')
                 continue
+            # a product / power of errors compared with zero UNDERFLOWS:
+            # e**2 is 0.0 for every positive e below 1.5e-162
+            under = None
+            for cmp_ in ast.walk(elt):
+                sides = []
+                if isinstance(cmp_, ast.Compare):
+                    sides = [cmp_.left] + list(cmp_.comparators)
+                elif isinstance(cmp_, ast.Call) and call_name(cmp_) in (
+                        'greater', 'not_equal', 'equal', 'less',
+                        'count_nonzero', 'nonzero', 'sign', 'signbit',
+                        'astype'):
+                    sides = list(cmp_.args) + ([receiver(cmp_)] if
+                                               receiver(cmp_) is not None
+                                               else [])
+                for side in sides:
+                    for sub in ast.walk(side):
+                        if isinstance(sub, ast.BinOp) and isinstance(
+                                sub.op, (ast.Pow, ast.Mult)) and \
+                                'error' in txt(sub):
+                            under = sub
+                        if isinstance(sub, ast.Call) and call_name(sub) in (
+                                'square', 'power', 'multiply', 'prod') and \
+                                'error' in txt(sub):
+                            under = sub
+            if under is not None:
+                ctx.violated(
+                    'MASK-TABLE', nzb, f'kept-bin predicate '
+                    f'{txt(elt)[:70]}', at=nzb.where(ret),
+                    detail=f'`{txt(under)[:40]}` underflows to 0.0 for '
+                           f'positive errors below 1.5e-162: such bins are '
+                           f'left out although their errors are not zero '
+                           f'(the predicate must compare the errors '
+                           f'themselves with zero)')
+                continue
             table = _mask_table(elt)
             required = {('eq', 'eq'): False, ('eq', 'gt'): True,
                         ('gt', 'eq'): True, ('gt', 'gt'): True}
